@@ -322,12 +322,13 @@ theorem tie_rs_chunk_header_size (vital : Bool) :
   Tw.RsConn.chunk_header_size_eq vital
 
 /-- representation map: the model's `PacketContents` with `numChunks = num_chunks` and
-`size = data.len()`; the `usize` sums do not overflow for lengths that exist -/
+`size = data.len()`; the `usize` sums do not overflow for lengths that exist; `num_chunks` is a
+`u8` in the Rust (`hu8`) -/
 theorem tie_rs_can_fit_chunk (p : Tw.Gen.RsConn.PacketContents) (data : List UInt8) (vital : Bool)
     (q : PacketContents) (hn : q.numChunks = p.num_chunks) (hs : q.size = p.data.length)
-    (hlen : p.data.length + 3 + data.length < 2 ^ 64) :
+    (hlen : p.data.length + 3 + data.length < 2 ^ 64) (hu8 : p.num_chunks < 256) :
     Tw.Gen.RsConn.PacketContents.can_fit_chunk p data vital = .ok (q.canFit data.length vital) :=
-  Tw.RsConn.can_fit_chunk_eq p data vital q hn hs hlen
+  Tw.RsConn.can_fit_chunk_eq p data vital q hn hs hlen hu8
 
 example : (PacketContents.empty).numChunks = (⟨0, []⟩ : Tw.Gen.RsConn.PacketContents).num_chunks ∧
     (PacketContents.empty).size = (⟨0, []⟩ : Tw.Gen.RsConn.PacketContents).data.length := by decide
